@@ -1,8 +1,8 @@
 --------------------------- MODULE Trace_KeyStore ---------------------------
 (***************************************************************************)
 (* Acceptor for traces recorded from the real EncryptedKeyStorageManager   *)
-(* (harness module c18).  Model state: the store state `t` = [pw, seeds]   *)
-(* that callers are entitled to, whether the file bytes are unaltered      *)
+(* (harness module c18).  Model state: the store states [pw, seeds]        *)
+(* that callers may be entitled to, whether the file bytes are unaltered      *)
 (* (`intact`), and - only to describe the input condition of a violation - *)
 (* which seed ids were stored/retrieved in this process since the last     *)
 (* cache clearing (`warm`) and which passwords were current before         *)
@@ -16,8 +16,11 @@ EXTENDS Integers, Sequences, FiniteSets, TLC, Json, IOUtils, KeyStoreRules
 Rec == ndJsonDeserialize(IOEnv.TRACE)
 N == Len(Rec)
 
-VARIABLES l, t, intact, warm, former, viol, nviol, nchk, segv
-vars == <<l, t, intact, warm, former, viol, nviol, nchk, segv>>
+VARIABLES l,
+          T,        \* the store states callers may be entitled to (a set: after a crash both the state
+                    \* before and after the interrupted operation are admissible until observations tell them apart)
+          intact, warm, former, viol, nviol, nchk, segv
+vars == <<l, T, intact, warm, former, viol, nviol, nchk, segv>>
 Ev == Rec[l]
 
 CountOf(c, d) == Cardinality({i \in 1..Len(viol) : viol[i].clause = c /\ viol[i].cond = d})
@@ -28,73 +31,74 @@ NoteAll(vs) ==
                                LAMBDA v : CountOf(v.clause, v.cond) < 25)
 Quiet == UNCHANGED <<viol, nviol, segv>>
 
-Init == /\ l = 1 /\ t = NoStore /\ intact = TRUE /\ warm = {} /\ former = {}
+Init == /\ l = 1 /\ T = {NoStore} /\ intact = TRUE /\ warm = {} /\ former = {}
         /\ viol = <<>> /\ nviol = 0 /\ nchk = 0 /\ segv = <<>>
 
 Reset == /\ Ev.ev = "Reset"
-         /\ t' = NoStore /\ intact' = TRUE /\ warm' = {} /\ former' = {}
+         /\ T' = {NoStore} /\ intact' = TRUE /\ warm' = {} /\ former' = {}
          /\ segv' = Append(segv, 0) /\ UNCHANGED <<viol, nviol, nchk>>
 
 (* the writing operations: the model follows the reported outcome; the rules speak about retrieves *)
 Initialize == /\ Ev.ev = "Init"
-              /\ t' = IF Ev.ok THEN [pw |-> Ev.pw, seeds |-> <<>>] ELSE t
+              /\ T' = IF Ev.ok THEN {[pw |-> Ev.pw, seeds |-> <<>>]} ELSE T
               /\ Quiet /\ UNCHANGED <<intact, warm, former, nchk>>
 
 Store == /\ Ev.ev = "Store"
-         /\ t' = IF Ev.ok THEN StoreEffect(t, Ev.id, Ev.seed) ELSE t
+         /\ T' = IF Ev.ok THEN {StoreEffect(t, Ev.id, Ev.seed) : t \in T} ELSE T
          /\ warm' = IF Ev.ok THEN warm \cup {Ev.id} ELSE warm
          /\ Quiet /\ UNCHANGED <<intact, former, nchk>>
 
 ChangePw == /\ Ev.ev = "ChangePw"
-            /\ t' = IF Ev.ok THEN ChangeEffect(t, Ev.new) ELSE t
-            /\ former' = IF Ev.ok THEN former \cup {t.pw} ELSE former
+            /\ T' = IF Ev.ok THEN {ChangeEffect(t, Ev.new) : t \in T} ELSE T
+            /\ former' = IF Ev.ok THEN (former \cup {t.pw : t \in T}) \ {Ev.new} ELSE former
             /\ warm' = IF Ev.ok THEN {} ELSE warm
             /\ Quiet /\ UNCHANGED <<intact, nchk>>
 
 ClearCache == /\ Ev.ev \in {"ClearCache", "Reopen"} /\ warm' = {}
-              /\ Quiet /\ UNCHANGED <<t, intact, former, nchk>>
+              /\ Quiet /\ UNCHANGED <<T, intact, former, nchk>>
 
-Corrupt == /\ Ev.ev = "Corrupt" /\ intact' = FALSE /\ Quiet /\ UNCHANGED <<t, warm, former, nchk>>
-Restore == /\ Ev.ev = "Restore" /\ intact' = TRUE /\ Quiet /\ UNCHANGED <<t, warm, former, nchk>>
+Corrupt == /\ Ev.ev = "Corrupt" /\ intact' = FALSE /\ Quiet /\ UNCHANGED <<T, warm, former, nchk>>
+Restore == /\ Ev.ev = "Restore" /\ intact' = TRUE /\ Quiet /\ UNCHANGED <<T, warm, former, nchk>>
 
-WhyNot(id, pw, res) ==
+WhyNot(t, id, pw, res) ==
   IF Entitled(t, id, pw) THEN "different_material"
-  ELSE (IF pw \in former THEN "previous_password" ELSE IF pw = t.pw THEN "unknown_seed_id" ELSE "other_password")
+  ELSE (IF pw = t.pw THEN "unknown_seed_id" ELSE IF pw \in former THEN "previous_password" ELSE "other_password")
        \o (IF ~intact THEN "_file_altered" ELSE "")
        \o (IF id \in warm THEN "_seed_in_process_cache" ELSE "_cold")
 
 Retrieve ==
   /\ Ev.ev = "Retrieve"
-  /\ LET v1 == IF OnlyCurrentPw(t, Ev.id, Ev.pw, Ev.res) THEN <<>>
-               ELSE <<[clause |-> IF intact THEN "OnlyCurrentPw" ELSE "TamperDetected", cond |-> WhyNot(Ev.id, Ev.pw, Ev.res)]>>
-         v2 == IF CurrentPwWorks(t, intact, Ev.id, Ev.pw, Ev.res) THEN <<>>
+  /\ LET good == {t \in T : RetrieveOk(t, intact, Ev.id, Ev.pw, Ev.res)}
+         t0 == CHOOSE t \in T : TRUE
+         v1 == IF OnlyCurrentPw(t0, Ev.id, Ev.pw, Ev.res) THEN <<>>
+               ELSE <<[clause |-> IF intact THEN "OnlyCurrentPw" ELSE "TamperDetected", cond |-> WhyNot(t0, Ev.id, Ev.pw, Ev.res)]>>
+         v2 == IF CurrentPwWorks(t0, intact, Ev.id, Ev.pw, Ev.res) THEN <<>>
                ELSE <<[clause |-> "CurrentPwWorks", cond |-> IF Ev.res = Err THEN "error" ELSE "different_material"]>>
-     IN NoteAll(v1 \o v2)
+     IN IF good # {} THEN NoteAll(<<>>) /\ T' = good
+        ELSE NoteAll(v1 \o v2) /\ T' = T
   /\ warm' = IF Ev.res # Err THEN warm \cup {Ev.id} ELSE warm
   /\ nchk' = nchk + 1
-  /\ UNCHANGED <<t, intact, former>>
+  /\ UNCHANGED <<intact, former>>
 
 (* a crash image of an interrupted Store / ChangePw, probed by fresh managers (one per probe) *)
-After(op) == IF op.kind = "Store" THEN (IF op.pw = t.pw THEN StoreEffect(t, op.id, op.seed) ELSE t)
-             ELSE (IF op.old = t.pw THEN ChangeEffect(t, op.new) ELSE t)
+After(op, t) == IF op.kind = "Store" THEN (IF op.pw = t.pw THEN StoreEffect(t, op.id, op.seed) ELSE t)
+                ELSE (IF op.old = t.pw THEN ChangeEffect(t, op.new) ELSE t)
 Explains(c, probe) == \A i \in 1..Len(probe) : RetrieveOk(c, TRUE, probe[i].id, probe[i].pw, probe[i].res)
 CrashProbe ==
   /\ Ev.ev = "CrashProbe"
-  /\ LET old == t
-         new == After(Ev.op)
-         okOld == Explains(old, Ev.probe)
-         okNew == Explains(new, Ev.probe) IN
-     /\ IF okOld \/ okNew THEN NoteAll(<<>>) ELSE NoteAll(<<[clause |-> "Atomic", cond |-> Ev.point]>>)
+  /\ LET cands == T \cup {After(Ev.op, t) : t \in T}
+         good == {c \in cands : Explains(c, Ev.probe)} IN
+     /\ IF good # {} THEN NoteAll(<<>>) ELSE NoteAll(<<[clause |-> "Atomic", cond |-> Ev.point]>>)
      /\ IF Ev.adopt
-        THEN /\ t' = IF okNew /\ ~okOld THEN new ELSE IF okOld THEN old ELSE t
+        THEN /\ T' = IF good # {} THEN good ELSE T
              /\ warm' = {}
-             /\ former' = IF t'.pw # t.pw THEN former \cup {t.pw} ELSE former
-        ELSE UNCHANGED <<t, warm, former>>
+             /\ former' = former \cup ({t.pw : t \in T} \ {t.pw : t \in T'})
+        ELSE UNCHANGED <<T, warm, former>>
   /\ nchk' = nchk + Len(Ev.probe)
   /\ UNCHANGED intact
 
 Panic == /\ Ev.ev = "Panic" /\ NoteAll(<<[clause |-> "NoPanic", cond |-> Ev.where]>>)
-         /\ UNCHANGED <<t, intact, warm, former, nchk>>
+         /\ UNCHANGED <<T, intact, warm, former, nchk>>
 
 Next == /\ l <= N /\ l' = l + 1
         /\ (Reset \/ Initialize \/ Store \/ ChangePw \/ ClearCache \/ Corrupt \/ Restore \/ Retrieve \/ CrashProbe \/ Panic)
